@@ -189,6 +189,8 @@ def run(ck):
                 hexprog = vlib.impl(["ser\t" + b["code"]])[0][3:]
                 hexargs = vlib.impl(["ser\t" + jargs])[0][3:]
                 consensus = vlib.impl(["run\t2\t%s\t%s" % (b["code"], jargs)], timeout_line=60)[0]
+                if len(hexprog) + len(hexargs) + len(argtxt) > 100000:
+                    continue        # does not fit on a command line (the CLI takes the program as an argument)
                 for view in ([], ["-t"]):
                     o_src = subprocess.run([vlib.HARNESS_BIN, "tool", "cldb", "-O"] + view + [src, argtxt], cwd=work, capture_output=True, text=True, timeout=300).stdout
                     o_hex = subprocess.run([vlib.HARNESS_BIN, "tool", "cldb", "-x"] + view + [hexprog, hexargs], cwd=work, capture_output=True, text=True, timeout=300).stdout
